@@ -17,6 +17,8 @@ def funcs : List (String × String) := [
   ("internal/dsn/dsn.go:writeHeader", "f4d399f446a887e0"),
   ("internal/dsn/dsn.go:writeHumanReadablePart", "17b9a08d4f6d92e6"),
   ("internal/dsn/dsn.go:writeMachineReadablePart", "17ff9620a7504ce3"),
+  ("internal/target/queue/queue.go:NewQueue", "9b38ba9eb41e6c6a"),
+  ("internal/target/queue/queue.go:Queue.Init", "d2084dcbd9e45597"),
   ("internal/target/queue/queue.go:Queue.Start", "a3de4613def4b988"),
   ("internal/target/queue/queue.go:Queue.deliver", "f9c76cc6fc51885f"),
   ("internal/target/queue/queue.go:Queue.dispatch", "b74f41bd2cc3ee79"),
@@ -24,6 +26,7 @@ def funcs : List (String × String) := [
   ("internal/target/queue/queue.go:Queue.openMessage", "e860a325c84bd4f8"),
   ("internal/target/queue/queue.go:Queue.readDiskQueue", "d542914f9b1ab176"),
   ("internal/target/queue/queue.go:Queue.readMessageMeta", "02d7c83723fce1d9"),
+  ("internal/target/queue/queue.go:Queue.start", "a4e479478358da31"),
   ("internal/target/queue/queue.go:Queue.storeNewMessage", "b3c9b8f26b968111"),
   ("internal/target/queue/queue.go:Queue.tryDelivery", "6590e3a3ec4082a2"),
   ("internal/target/queue/queue.go:Queue.updateMetadataOnDisk", "53af3a3781a30de7"),
